@@ -42,6 +42,22 @@
 //     kind of index; obitag2.Identify needs a family-indexed database (clusters, family_taxid
 //     annotations written by other commands): neither is part of the statement.  obitag2 is
 //     covered through its own FindClosests and through BestConsensus.
+//   - Reference files holding records the commands discard or treat specially (raw_test.go):
+//     what the database is, record by record, is read off the code and its messages - unknown
+//     taxid (also 0 and negative): discarded with a warning (obitag) / a count (obirefidx);
+//     old identifier of merged.dmp: reference of the taxon it was merged into; no taxid
+//     attribute: reference of the root (BioSequence.Taxid documents the default 1); 1..3 nt,
+//     repeated identifiers: ordinary references.  Only the answers on the database so defined
+//     are asserted.  Left out: an empty sequence (the FASTA reader of the pinned tree is fatal
+//     on it), taxids written as JSON strings or floats ("1011", "TX:1011": read as "no taxid"),
+//     a file without any kept record, and what obitag --save-db writes for such a file (the
+//     statement is about answers; on the pinned tree the saved file repeats the last kept
+//     record once per discarded record).  NOT RUN (reported, not a generator limit): obitag on
+//     an un-indexed file whose LAST record is a discarded one - on the pinned tree the command
+//     aborts ("Try to get LCA of nil taxon": CLIAssignTaxonomy leaves a nil entry in the TaxonSet
+//     at the position after the last kept reference, IndexSequence ranges over the set) as soon
+//     as it has to index a best reference; the same file with the kept records already indexed
+//     is run.
 //   - Lazy indexing by concurrent workers (Identify storing obitag_ref_index on shared
 //     references) is a scheduling matter, not checked here: Identify is called from one goroutine.
 package c15
@@ -60,6 +76,7 @@ func TestMain(m *testing.M) {
 		evid.Spec{Name: "TestPropLong", Kind: "rapid", Quick: 160, Thorough: 4000, QuickShards: 8, ThoroughShards: 16, TimeoutS: 3000},
 		evid.Spec{Name: "TestPropHistory", Kind: "rapid", Quick: 120, Thorough: 2400, QuickShards: 8, ThoroughShards: 16, TimeoutS: 3000},
 		evid.Spec{Name: "TestPropBigDB", Kind: "rapid", Quick: 4, Thorough: 64, QuickShards: 4, ThoroughShards: 16, TimeoutS: 3000},
+		evid.Spec{Name: "TestPropRawDB", Kind: "rapid", Quick: 160, Thorough: 3200, QuickShards: 8, ThoroughShards: 16, TimeoutS: 3000},
 	)
 	evid.Note("rule", "A case is a reference database of 2..60 sequences (20..150 nt over acgt, also acg/ac and tandem repeats; 1..4 families built by mutation of a founder, of a sibling or of the query itself: 0..10 substitutions/insertions/deletions of a drawn kind mix, flanks added (longer) or ends removed (shorter), exact duplicates, unrelated sequences), a taxonomy of 1..25 nodes (C14 generator: random, deep, chain, star, caterpillar, broom, binary; root taxid 1) with each family mostly inside one clade, and a query (8..180 nt: 0..6 edits from the founder of family 0, ends possibly changed, or unrelated). "+
 		"Oracle: the query (resp. the indexed reference) is aligned with EVERY reference by an independent full-matrix LCS; distance = alignment length - LCS; best set = all references at the minimum. "+
@@ -68,7 +85,7 @@ func TestMain(m *testing.M) {
 		"identify: assigned taxid is an ancestor-or-self of the taxon of every brute-force best reference, and equals the LCA over the best references of the LCA of all references within the best distance (root when the best identity < 0.5); match count and best identity annotations; references pre-indexed (none/some/all) or indexed lazily; obitag2 BestConsensus on the same indices. "+
 		"One evaluation = one call judged (one FindClosests, one IndexSequence map, one Identify). Non-trivial (search, identify) = at least 2 references tie at the minimal distance and at least one reference shares fewer 4-mers with the query than len(query)-3-4*dmin (a sound scan stops before it); non-trivial (index) = the index has at least 2 entries and at least one reference is below every 4-mer bound in play. Distinct = hash of (check, query, references, nodes, tree[, indexed reference / pre-indexed list]). "+
 		"long: the same generator, checks, oracles and non-trivial rules with 2..10 references of 150..520 nt and queries of 100..560 nt (lengths biased to 255..260 and 300: more than 255 4-mers per sequence, tandem repeats holding one word several hundred times), each case judged either as a search/identify case or as an index case. "+
-		ruleBigDB+" "+ruleHist)
+		ruleBigDB+" "+ruleHist+" "+ruleRaw)
 	evid.Commands("obirefidx", "obitag")
 	evid.Main(m, "C15")
 }
